@@ -73,21 +73,36 @@ fn string_witness(a: &str, b: &str) -> String {
     }
 }
 
+/// Another text of exactly the same byte length (an older document that happens to be as long): every ASCII digit and letter rotated by one
+fn same_length_other(s: &str) -> String {
+    s.chars()
+        .map(|c| match c {
+            '0'..='8' | 'a'..='y' | 'A'..='Y' => (c as u8 + 1) as char,
+            '9' => '0',
+            'z' => 'a',
+            'Z' => 'A',
+            c => c,
+        })
+        .collect()
+}
+
 impl C18 {
     fn gds_value(&self, cx: &mut Cx, lib: &GdsLibrary, fmt: SerializationFormat, via_file: bool) {
         cx.eval();
         let f = fmt_name(fmt);
         let path = cx.tmp(&format!("c18.{}", f));
-        let stale = cx.n % 2 == 0;
-        if via_file && stale {
-            cx.count("saved_over_existing_longer_file");
+        // history dimension: 0 fresh path, 1 over a longer older file, 2 over a different file of exactly the same length
+        let stale = cx.n % 3;
+        if via_file && stale > 0 {
+            cx.count(if stale == 1 { "saved_over_existing_longer_file" } else { "saved_over_existing_same_length_file" });
         }
         let r = guard(|| -> Result<GdsLibrary, String> {
             if via_file {
                 // history dimension: every other case saves over an existing, longer file (an older copy), as a user re-saving does
-                if stale {
+                if stale > 0 {
                     let older = fmt.to_string(lib).map_err(|e| format!("to_string: {}", e))?;
-                    std::fs::write(&path, format!("{}\n{}", older, older)).map_err(|e| format!("prewrite: {}", e))?;
+                    let older = if stale == 1 { format!("{}\n{}", older, older) } else { same_length_other(&older) };
+                    std::fs::write(&path, older).map_err(|e| format!("prewrite: {}", e))?;
                 }
                 fmt.save(lib, &path).map_err(|e| format!("save: {}", e))?;
                 fmt.open(&path).map_err(|e| format!("open: {}", e))
@@ -118,16 +133,18 @@ impl C18 {
         cx.eval();
         let f = fmt_name(fmt);
         let path = cx.tmp(&format!("c18lef.{}", f));
-        let stale = cx.n % 2 == 0;
-        if via_file && stale {
-            cx.count("saved_over_existing_longer_file");
+        // history dimension: 0 fresh path, 1 over a longer older file, 2 over a different file of exactly the same length
+        let stale = cx.n % 3;
+        if via_file && stale > 0 {
+            cx.count(if stale == 1 { "saved_over_existing_longer_file" } else { "saved_over_existing_same_length_file" });
         }
         let r = guard(|| -> Result<LefLibrary, String> {
             if via_file {
                 // history dimension: every other case saves over an existing, longer file (an older copy), as a user re-saving does
-                if stale {
+                if stale > 0 {
                     let older = fmt.to_string(lib).map_err(|e| format!("to_string: {}", e))?;
-                    std::fs::write(&path, format!("{}\n{}", older, older)).map_err(|e| format!("prewrite: {}", e))?;
+                    let older = if stale == 1 { format!("{}\n{}", older, older) } else { same_length_other(&older) };
+                    std::fs::write(&path, older).map_err(|e| format!("prewrite: {}", e))?;
                 }
                 fmt.save(lib, &path).map_err(|e| format!("save: {}", e))?;
                 fmt.open(&path).map_err(|e| format!("open: {}", e))
